@@ -584,7 +584,9 @@ func init() {
 				if i%12 == 11 {
 					cs = append(cs, c05FlagsGen(rng))
 				} else {
-					cs = append(cs, c05Gen(rng))
+					m := c05Gen(rng)
+					raTerminators(m.Prog, i)
+					cs = append(cs, m)
 				}
 			}
 			return cs
@@ -602,7 +604,9 @@ func init() {
 			n := env.N(500, 12000)
 			var cs []core.Case
 			for i := 0; i < n; i++ {
-				cs = append(cs, c06Gen(rng))
+				m := c06Gen(rng)
+				raTerminators(m.Prog, i)
+				cs = append(cs, m)
 			}
 			return cs
 		},
@@ -619,7 +623,9 @@ func init() {
 			n := env.N(400, 8000)
 			var cs []core.Case
 			for i := 0; i < n; i++ {
-				cs = append(cs, c07Gen(rng))
+				m := c07Gen(rng)
+				raTerminators(m.Prog, i)
+				cs = append(cs, m)
 			}
 			return cs
 		},
